@@ -92,6 +92,9 @@ def build(base, sc):
             git(root, 'add', '-A')
         elif k == 'add':
             git(root, 'add', '-A', '--', op[1])
+        elif k == 'rm_cached':
+            # the path leaves the index, the file stays on disk (now untracked)
+            git(root, 'rm', '-q', '--cached', '--', op[1])
         elif k == 'tag':
             git(root, 'tag', op[1])
         elif k == 'branch':
